@@ -15,6 +15,7 @@ type ZErr struct {
 	Exc     V      // *XV or *OV
 	Class   string // exception class name
 	Crossed bool   // propagated across a call boundary (numeric code no longer observable)
+	AnyCode bool   // the statement fixes that this is rejected, not with which code
 	Note    string
 }
 
@@ -96,6 +97,10 @@ type Ref struct {
 	loading map[string]bool
 	Libs    map[string]map[string]V
 	lastVal V
+	// Open is set when the run depended on something the statement leaves open
+	// (e.g. a callee touching a caller's block-local name: dynamic vs lexical scoping).
+	Open     bool
+	OpenWhy  string
 	// BuiltinHook / FormatHook let individual checks plug library functions and
 	// the % formatter into the reference (they are specified by other properties).
 	BuiltinHook func(name string, args []V) (V, *ZErr)
@@ -122,7 +127,41 @@ var predefined = map[string]bool{"真": true, "假": true, "空": true, "异常"
 
 var excClass = &CV{Name: "异常", Builtin: true}
 
+// lookup resolves a name lexically and records whether dynamic scoping (what a
+// caller's block happens to hold) would have resolved it differently — such
+// runs are outside what the statement fixes.
 func (rf *Ref) lookup(name string) (*binding, bool) {
+	b, ok := rf.lexLookup(name)
+	if len(rf.frames) > 1 && !predefined[name] {
+		var db *binding
+		cur := rf.cur()
+	outer:
+		for i := len(rf.frames) - 1; i >= 0; i-- {
+			f := rf.frames[i]
+			if f.mod != cur.mod {
+				continue
+			}
+			for j := len(f.blocks) - 1; j >= 0; j-- {
+				if x, has := f.blocks[j].names[name]; has {
+					db = x
+					break outer
+				}
+			}
+		}
+		if db == nil {
+			if x, has := cur.mod.consts[name]; has {
+				db = x
+			}
+		}
+		if db != b {
+			rf.Open = true
+			rf.OpenWhy = "name " + name + " resolves differently under dynamic scoping"
+		}
+	}
+	return b, ok
+}
+
+func (rf *Ref) lexLookup(name string) (*binding, bool) {
 	switch name {
 	case "真":
 		return &binding{v: true, konst: true}, true
@@ -773,7 +812,9 @@ func (rf *Ref) eval(e Expr) (V, *ZErr) {
 		case Var:
 			b, ok := rf.lookup(t.Name)
 			if predefined[t.Name] {
-				return nil, fault(EConst, "predefined") // real: "not defined" (42) — either is a rejection
+				e := fault(EConst, "predefined")
+				e.AnyCode = true
+				return nil, e
 			}
 			if !ok {
 				return nil, fault(EUndefined, t.Name)
